@@ -96,7 +96,7 @@ func cmdVerify(args []string) int {
 			bad++
 			continue
 		}
-		res := e.verifyFunc(fn, &fnOpts{houdini: !*noHoudini, noSafety: *noSafety}, cfg)
+		res := e.verifyFunc(fn, &fnOpts{houdini: !*noHoudini, noSafety: *noSafety, spec: e.special[name]}, cfg)
 		printResult(res, *verbose)
 		for _, o := range res.obligs {
 			if o.Status != "discharged" {
@@ -144,8 +144,8 @@ func printResult(res *fnResult, verbose bool) {
 		}
 	}
 	for _, o := range res.covers {
-		if o.Status != "sat" {
-			fmt.Printf("    cover %s: %s (expected sat)\n", o.Name, o.Status)
+		if o.Status == "unsat" {
+			fmt.Printf("    VACUOUS: cover %s is unsatisfiable\n", o.Name)
 		}
 	}
 }
@@ -159,7 +159,7 @@ func cmdDump(args []string) int {
 			continue
 		}
 		fn.WriteTo(os.Stdout)
-		res := e.genFunc(fn, &fnOpts{houdini: true}, &solverCfg{workers: 16})
+		res := e.genFunc(fn, &fnOpts{houdini: true, spec: e.special[name]}, &solverCfg{workers: 16})
 		if res.err != "" {
 			fmt.Println(res.err)
 			continue
@@ -180,6 +180,8 @@ func cmdSweep(args []string) int {
 	fs := flag.NewFlagSet("sweep", flag.ExitOnError)
 	verbose := fs.Bool("v", false, "list undischarged obligations")
 	file := fs.String("file", "", "restrict to functions defined in this file (suffix match)")
+	baseline := fs.String("write-baseline", "", "write the list of clean functions to this file")
+	files := fs.String("files", "", "comma-separated list of source files (relative to the repo) to restrict to")
 	fs.Parse(args)
 	e := mustLoad()
 	pat := ".*"
@@ -198,6 +200,18 @@ func cmdSweep(args []string) int {
 				continue
 			}
 		}
+		if *files != "" {
+			okf := false
+			rel := e.relFile(fn)
+			for _, f := range strings.Split(*files, ",") {
+				if rel == f {
+					okf = true
+				}
+			}
+			if !okf {
+				continue
+			}
+		}
 		keys = append(keys, k)
 	}
 	sort.Strings(keys)
@@ -211,7 +225,7 @@ func cmdSweep(args []string) int {
 	for i, k := range keys {
 		go func(i int, k string) {
 			sem <- struct{}{}
-			rows[i] = e.genFunc(e.funcs[k], &fnOpts{houdini: true}, cfg)
+			rows[i] = e.genFunc(e.funcs[k], &fnOpts{houdini: true, spec: e.special[k]}, cfg)
 			<-sem
 			done <- i
 		}(i, k)
@@ -257,5 +271,23 @@ func cmdSweep(args []string) int {
 		}
 	}
 	fmt.Printf("functions=%d clean=%d outside-subset=%d obligations=%d discharged=%d\n", len(rows), clean, outside, tot, ok)
+	if *baseline != "" {
+		var sb strings.Builder
+		for _, r := range rows {
+			if r.err != "" || r.attachErr != "" {
+				continue
+			}
+			good := true
+			for _, o := range r.obligs {
+				if o.Status != "discharged" {
+					good = false
+				}
+			}
+			if good {
+				fmt.Fprintf(&sb, "%s %d\n", r.key, len(r.obligs))
+			}
+		}
+		os.WriteFile(*baseline, []byte(sb.String()), 0o644)
+	}
 	return 0
 }
